@@ -12,6 +12,7 @@ pub mod c15;
 pub mod c16;
 pub mod c17;
 pub mod c18;
+pub mod c19;
 pub mod hist;
 
 /// `got` must be isomorphic (C03's notion) to `want`.  Undecided searches are counted, never flagged.
